@@ -92,7 +92,7 @@ fn letters(lists: &[Vec<u8>], params: &[(u64, u8, u8)], src: u8) -> Vec<Blk> {
     let mut v = vec![];
     for l in lists {
         for (gp, cb, da) in params {
-            v.push(Blk { txs: l.clone(), gp: *gp, cb: *cb, da: *da, src, bulk: 0 });
+            v.push(Blk { txs: l.clone(), gp: *gp, cb: *cb, da: *da, src, bulk: 0, rfail: 0 });
         }
     }
     v
@@ -129,11 +129,16 @@ fn plans(cli: &Cli, prop: Prop) -> Vec<Plan> {
             let wide = letters(&lists(&all, 2), &if thorough { params_full.clone() } else { vec![(1, 1, 0), (0, 0, 2), (1, 0, 1)] }, 0);
             out.push(Plan { subject: ExecSubject::new("wide: <=2 of all templates, 1 block", u.clone(), prop, wide), depth: 1 });
             // (a') the same lists handed over pre-checked, as the pool does
-            let wide_checked = letters(&lists(&all, if thorough { 2 } else { 1 }), &[(1, 1, 1), (0, 0, 2)], SRC_CHECKED);
-            out.push(Plan { subject: ExecSubject::new("wide, pre-checked transactions (pool-like source)", u.clone(), prop, wide_checked), depth: if thorough { 1 } else { 2 } });
+            let wide_checked = letters(&lists(&all, 1), &[(1, 1, 1), (0, 0, 2)], SRC_CHECKED);
+            out.push(Plan { subject: ExecSubject::new("wide, pre-checked transactions (pool-like source)", u.clone(), prop, wide_checked), depth: 2 });
+            if thorough {
+                let pairs_checked = letters(&lists(&all, 2), &[(1, 1, 1), (0, 0, 2)], SRC_CHECKED);
+                out.push(Plan { subject: ExecSubject::new("pairs of pre-checked transactions (pool-like source), 1 block", u.clone(), prop, pairs_checked), depth: 1 });
+            }
             // (b) deep: histories of blocks over a core set
             let core_names: Vec<&str> = if (thorough && prop != Prop::C06) || prop == Prop::C02 {
-                vec!["xfer", "dblspend", "dep", "call_ok", "call_rvrt", "call_tro", "create", "call_c3", "msgdata_rvrt", "msgdata_ok", "msg_early", "msg_relayed", "expiring", "noout", "missing", "call_smo", "upgrade_cp"]
+                let v = vec!["xfer", "dblspend", "dep", "call_ok", "call_rvrt", "call_tro", "create", "call_c3", "msgdata_rvrt", "msgdata_ok", "msg_early", "msg_relayed", "expiring", "noout", "missing", "call_smo", "upgrade_cp"];
+                v
             } else {
                 vec!["xfer", "dblspend", "dep", "call_ok", "call_rvrt", "create", "call_c3", "msgdata_rvrt", "msgdata_ok", "msg_relayed", "expiring", "noout", "upgrade_cp"]
             };
@@ -166,11 +171,17 @@ fn plans(cli: &Cli, prop: Prop) -> Vec<Plan> {
             if prop == Prop::C06 {
                 // (d) UTXO validation off: only the processed-id check stands between a resubmission and a second execution
                 let u = Universe::new(CpVariant::Default, 1);
-                let set = t(&u, &["xfer", "noout", "call_rvrt", "msgdata_rvrt", "dblspend", "missing", "create"]);
-                let l = letters(&lists(&set, if thorough { 2 } else { 1 }), &[(0, 0, 0), (1, 1, 1)], 0);
-                let mut s = ExecSubject::new("utxo validation off: resubmissions", u, prop, l);
+                let set = t(&u, &["xfer", "noout", "call_rvrt", "msgdata_rvrt", "dblspend", "missing", "create", "rvrt_noout"]);
+                let l = letters(&lists(&set, 1), &[(0, 0, 0), (1, 1, 1)], 0);
+                let mut s = ExecSubject::new("utxo validation off: resubmissions", u.clone(), prop, l);
                 s.utxo_validation = false;
-                out.push(Plan { subject: s, depth: 3 });
+                out.push(Plan { subject: s, depth: if thorough { 4 } else { 3 } });
+                if thorough {
+                    let l = letters(&lists(&set, 2), &[(0, 0, 0), (1, 1, 1)], 0);
+                    let mut s = ExecSubject::new("utxo validation off: resubmissions, blocks of <=2", u, prop, l);
+                    s.utxo_validation = false;
+                    out.push(Plan { subject: s, depth: 2 });
+                }
             }
         }
         Prop::C04 => {
@@ -178,7 +189,7 @@ fn plans(cli: &Cli, prop: Prop) -> Vec<Plan> {
             let all = all_templates(&u);
             let wide = letters(&lists(&all, 2), &if thorough { vec![(0, 0, 0), (1, 1, 0), (2, 2, 1), (1, 1, 2), (1, 0, 0)] } else { vec![(1, 1, 0), (0, 0, 2), (2, 2, 1)] }, 0);
             out.push(Plan { subject: ExecSubject::new("wide: <=2 of all templates, 1 block", u.clone(), prop, wide), depth: 1 });
-            let core = t(&u, &["xfer", "call_ok", "call_rvrt", "call_panic", "call_oog", "call_smo", "msgdata_rvrt", "msgdata_ok", "dblspend", "expiring", "msg_early", "call_tro"]);
+            let core = t(&u, &["xfer", "call_ok", "call_rvrt", "call_panic", "call_oog", "call_smo", "msgdata_rvrt", "msgdata_ok", "dblspend", "expiring", "msg_early", "call_tro", "preddata_rvrt", "predmsg_rvrt"]);
             let deep = letters(&lists(&core, if thorough { 2 } else { 1 }), &[(1, 1, 0), (1, 2, 1)], 0);
             out.push(Plan { subject: ExecSubject::new("deep: histories with reverting scripts", u.clone(), prop, deep), depth: if thorough { 2 } else { 3 } });
             if thorough {
@@ -186,6 +197,15 @@ fn plans(cli: &Cli, prop: Prop) -> Vec<Plan> {
                 out.push(Plan { subject: ExecSubject::new("triples: <=3 of 8 templates", u.clone(), prop, l3), depth: 1 });
                 let singles = letters(&lists(&core, 1), &[(1, 1, 0), (1, 2, 1)], 0);
                 out.push(Plan { subject: ExecSubject::new("deeper: 4-block histories of single-transaction blocks", u.clone(), prop, singles), depth: 4 });
+            }
+            {
+                // UTXO validation off: some inputs are only found missing after the VM ran
+                let u = Universe::new(CpVariant::Default, 1);
+                let set = t(&u, &["xfer", "msg_missing", "call_rvrt", "missing", "msgdata_rvrt", "rvrt_noout"]);
+                let l = letters(&lists(&set, 2), &[(1, 1, 0), (2, 2, 1)], 0);
+                let mut s = ExecSubject::new("utxo validation off: transactions skipped after their VM run", u, prop, l);
+                s.utxo_validation = false;
+                out.push(Plan { subject: s, depth: if thorough { 2 } else { 1 } });
             }
             let u = Universe::new(CpVariant::TinyGas, 0);
             let set = t(&u, &["xfer", "call_oog", "spin", "call_rvrt", "call_ok"]);
@@ -232,6 +252,15 @@ fn plans(cli: &Cli, prop: Prop) -> Vec<Plan> {
                 }
                 out.push(Plan { subject: ExecSubject::new(&format!("{v:?} {kind}: lists<={max_len}"), u, prop, l), depth: 1 });
             }
+            {
+                // UTXO validation off: a transaction can be skipped after its VM run (inputs found missing when spent)
+                let u = Universe::new(CpVariant::Default, 0);
+                let set = t(&u, &["xfer", "msg_missing", "call_rvrt", "missing", "tip", "rvrt_noout"]);
+                let l = letters(&lists(&set, if thorough { 3 } else { 2 }), &[(1, 1, 0), (2, 2, 0), (0, 1, 0), (1, 0, 0)], SRC_ONCE);
+                let mut s = ExecSubject::new("Default once-source, UTXO validation off: lists<=2", u, prop, l);
+                s.utxo_validation = false;
+                out.push(Plan { subject: s, depth: 1 });
+            }
             if thorough {
                 // the transaction-count limit with its production value (u16::MAX - 1, plus the mint):
                 // sources that return more transactions than that
@@ -239,9 +268,9 @@ fn plans(cli: &Cli, prop: Prop) -> Vec<Plan> {
                 let u = Universe::new_bulk(CpVariant::Huge, 0, n);
                 let mut l = vec![];
                 for src in [SRC_GREEDY, SRC_ONCE] {
-                    l.push(Blk { txs: vec![], gp: 1, cb: 1, da: 0, src, bulk: n as u32 });
+                    l.push(Blk { txs: vec![], gp: 1, cb: 1, da: 0, src, bulk: n as u32, rfail: 0 });
                 }
-                l.push(Blk { txs: vec![], gp: 1, cb: 1, da: 0, src: SRC_GREEDY, bulk: 1000 });
+                l.push(Blk { txs: vec![], gp: 1, cb: 1, da: 0, src: SRC_GREEDY, bulk: 1000, rfail: 0 });
                 out.push(Plan { subject: ExecSubject::new("count limit: sources returning more than max_tx_count transactions", u, prop, l), depth: 1 });
             }
         }
@@ -249,7 +278,7 @@ fn plans(cli: &Cli, prop: Prop) -> Vec<Plan> {
             let u = Universe::new(CpVariant::Default, 1);
             let core = t(&u, &["xfer", "call_ok", "call_rvrt", "create", "msgdata_ok"]);
             let mut l = letters(&lists(&core, 1), &[(1, 1, 1)], 0);
-            l.push(Blk { txs: t(&u, &["xfer", "call_ok"]), gp: 0, cb: 0, da: 0, src: 0, bulk: 0 });
+            l.push(Blk { txs: t(&u, &["xfer", "call_ok"]), gp: 0, cb: 0, da: 0, src: 0, bulk: 0, rfail: 0 });
             let mut s = ExecSubject::new("chains over 5 templates x dry-run request grid", u, prop, l);
             s.thorough = thorough;
             out.push(Plan { subject: s, depth: if thorough { 3 } else { 2 } });
@@ -271,8 +300,17 @@ fn plans(cli: &Cli, prop: Prop) -> Vec<Plan> {
                         params.push((1, 1, da));
                     }
                 }
-                let l = letters(&ls, &params, 0);
-                out.push(Plan { subject: ExecSubject::new(&format!("relayer script {script}: DA advances 0..=3"), u, prop, l), depth: 3 });
+                let mut l = letters(&ls, &params, 0);
+                // deviation: the relayer fails to read the events of one DA height
+                for fail in 1..=3u8 {
+                    for da in 1..=3u8 {
+                        l.push(Blk { txs: vec![], gp: 0, cb: 0, da, src: 0, bulk: 0, rfail: fail });
+                        if thorough {
+                            l.push(Blk { txs: t(&u, &["xfer"]), gp: 1, cb: 1, da, src: 0, bulk: 0, rfail: fail });
+                        }
+                    }
+                }
+                out.push(Plan { subject: ExecSubject::new(&format!("relayer script {script}: DA advances 0..=3, relayer read failures"), u, prop, l), depth: 3 });
             }
         }
     }
@@ -281,19 +319,20 @@ fn plans(cli: &Cli, prop: Prop) -> Vec<Plan> {
 
 fn required_facts(prop: Prop) -> Vec<&'static str> {
     match prop {
-        Prop::C01 => vec!["c01:validated", "status:failed", "skip:TransactionIdCollision", "skip:TransactionValidity.CoinDoesNotExist", "skip:GasOverflow"],
+        Prop::C01 => vec!["c01:rechecked-after-upgrade", "c01:validated", "status:failed", "skip:TransactionIdCollision", "skip:TransactionValidity.CoinDoesNotExist", "skip:GasOverflow"],
         Prop::C02 => vec!["c02:events-checked", "c02:retryable-kept", "c02:zero-output-not-created", "skip:TransactionValidity.CoinDoesNotExist", "skip:TransactionValidity.MessageSpendTooEarly"],
-        Prop::C03 => vec!["c03:limits-checked-nonempty", "c03:mutant-rejected:amount+1", "c03:mutant-rejected:amount+1-consistent", "c03:mutant-rejected:amount-1-consistent", "c03:mutant-rejected:index+1", "c03:mutant-rejected:no-mint", "c03:mutant-rejected:two-mints", "skip:GasOverflow"],
+        Prop::C03 => vec!["skip:MessageDoesNotExist", "c03:limits-checked-nonempty", "c03:mutant-rejected:amount+1", "c03:mutant-rejected:amount+1-consistent", "c03:mutant-rejected:amount-1-consistent", "c03:mutant-rejected:index+1", "c03:mutant-rejected:no-mint", "c03:mutant-rejected:two-mints", "skip:GasOverflow"],
         Prop::C04 => vec![
             "c04:revert-checked",
             "c04:retryable-kept",
             "c04:skip-checked:GasOverflow",
+            "c04:skip-checked:MessageDoesNotExist",
             "c04:skip-checked:TransactionIdCollision",
             "c04:skip-checked:TransactionValidity.CoinDoesNotExist",
             "c04:skip-checked:TransactionValidity.CoinMismatch",
             "c04:skip-checked:TransactionValidity.MessageSpendTooEarly",
         ],
-        Prop::C05 => vec!["c05:invalid-forced-reported", "c05:forced-included", "c05:forced-failed-reported", "c05:da-jump-1", "c05:da-jump-2", "c05:da-jump-3", "c05:no-advance"],
+        Prop::C05 => vec!["produce-err:RelayerError", "c05:invalid-forced-reported", "c05:forced-included", "c05:forced-failed-reported", "c05:da-jump-1", "c05:da-jump-2", "c05:da-jump-3", "c05:no-advance"],
         Prop::C06 => vec!["skip:TransactionIdCollision", "c06:crafted-rejected"],
         Prop::C45 => vec!["c45:producer-ok", "c45:producer-err", "c45:executor-ok", "c45:executor-err", "c45:reverting-dry-run", "c45:storage-reads-recorded", "c45:past-height-ok"],
     }
